@@ -21,6 +21,11 @@ int verif_abort_flag;
 #include <stdarg.h>
 int vsnprintf(char *s, size_t n, const char *f, va_list ap) { (void)f; (void)ap; if (n) s[0] = 0; return 0; }
 int snprintf(char *s, size_t n, const char *f, ...) { (void)f; if (n) s[0] = 0; return 0; }
+/* libc functions without a CBMC model: arbitrary results within their contract */
+long long nondet_ll(void); double nondet_dbl(void); size_t nondet_sz(void);
+long long strtoll(const char *s, char **e, int b) { (void)s; (void)b; if (e) *e = (char *)s; return nondet_ll(); }
+double strtod(const char *s, char **e) { (void)s; if (e) *e = (char *)s; return nondet_dbl(); }
+char *strstr(const char *h, const char *n) { (void)n; size_t k = nondet_sz(); size_t len = 0; while (h[len]) len++; return (k <= len) ? (char *)h + k : (char *)0; }
 #endif
 
 #define K_NONE 0
@@ -38,6 +43,7 @@ int snprintf(char *s, size_t n, const char *f, ...) { (void)f; if (n) s[0] = 0; 
 #define K_TUPLE 15      /* tuple: (int, string) */
 #define K_CLOSURE 16    /* closure of function 1 with one captured string */
 #define K_HASHMAP 17    /* hashmap with one int->string entry */
+#define K_HASHMAP_S 18  /* hashmap with one string->string entry */
 #define K_ALIAS0 20     /* + slot index */
 
 #ifndef SLEN
@@ -70,15 +76,16 @@ int snprintf(char *s, size_t n, const char *f, ...) { (void)f; if (n) s[0] = 0; 
 #define NSLOTS 5
 
 /* ---------------- ghost allocator facts ---------------- */
-#define MAXFREED 8
+#define MAXFREED 16
 static void *g_freed[MAXFREED];
 static int g_nfreed;
 static int g_double_free;
+static int g_freed_overflow;
 #ifdef GHOST_FREE
 void verif_free(void *p) {
     if (!p) return;
     for (int i = 0; i < MAXFREED; i++) if (i < g_nfreed && g_freed[i] == p) g_double_free = 1;
-    if (g_nfreed < MAXFREED) g_freed[g_nfreed++] = p;
+    if (g_nfreed < MAXFREED) g_freed[g_nfreed++] = p; else g_freed_overflow = 1;
     /* memory deliberately kept: the audit may still inspect it */
 }
 #endif
@@ -111,6 +118,7 @@ static NvmModule vs_mod;
 static VmState vs_vm;
 static VmString *vs_intern[8];
 static NanoValue vs_slotval[NSLOTS];
+static const NanoValue NV_ZERO;
 
 static uint32_t nd_extra(void);
 
@@ -141,7 +149,7 @@ static void ref_to(NanoValue v) {   /* account one reference created by the harn
 
 static NanoValue mk_value(int kind, int64_t i, uint64_t fbits, uint8_t b, uint32_t extra,
                           const uint8_t *sbytes, const int64_t *aints, const uint8_t *tbytes) {
-    NanoValue v; memset(&v, 0, sizeof v);
+    NanoValue v = NV_ZERO;   /* struct assignment, not memset: keeps the tag a constant for CBMC */
     switch (kind) {
     case K_VOID: v.tag = TAG_VOID; break;
     case K_INT: v.tag = TAG_INT; v.as.i64 = i; break;
@@ -182,7 +190,7 @@ static NanoValue mk_value(int kind, int64_t i, uint64_t fbits, uint8_t b, uint32
         VmTuple *t = malloc(sizeof(VmTuple) + 2 * sizeof(NanoValue)); ASSUME(t != NULL);
         t->header.ref_count = 0; t->header.obj_type = TAG_TUPLE; t->count = 2;
         reg_add(t, TAG_TUPLE, extra);
-        memset(&t->elements[0], 0, 2 * sizeof(NanoValue));
+        t->elements[0] = NV_ZERO; t->elements[1] = NV_ZERO;
         t->elements[0].tag = TAG_INT; t->elements[0].as.i64 = aints[0];
         t->elements[1].tag = TAG_STRING; t->elements[1].as.string = mk_string(tbytes, 2, 0); ref_to(t->elements[1]);
         v.tag = TAG_TUPLE; v.as.tuple = t; break; }
@@ -190,18 +198,19 @@ static NanoValue mk_value(int kind, int64_t i, uint64_t fbits, uint8_t b, uint32
         VmClosure *c = malloc(sizeof(VmClosure) + 1 * sizeof(NanoValue)); ASSUME(c != NULL);
         c->header.ref_count = 0; c->header.obj_type = TAG_FUNCTION; c->fn_idx = 1; c->capture_count = 1;
         reg_add(c, TAG_FUNCTION, extra);
-        memset(&c->captures[0], 0, sizeof(NanoValue));
+        c->captures[0] = NV_ZERO;
         c->captures[0].tag = TAG_STRING; c->captures[0].as.string = mk_string(tbytes, 2, 0); ref_to(c->captures[0]);
         v.tag = TAG_FUNCTION; v.as.closure = c; break; }
-    case K_HASHMAP: {
+    case K_HASHMAP: case K_HASHMAP_S: {
         VmHashMap *m = malloc(sizeof(VmHashMap)); ASSUME(m != NULL);
         m->header.ref_count = 0; m->header.obj_type = TAG_HASHMAP; m->key_type = TAG_INT; m->val_type = TAG_STRING;
         m->count = 1; m->bucket_count = 2;
         m->buckets = calloc(2, sizeof(VmHMEntry *)); ASSUME(m->buckets != NULL);
         reg_add(m, TAG_HASHMAP, extra);
         VmHMEntry *e = malloc(sizeof(VmHMEntry)); ASSUME(e != NULL);
-        memset(e, 0, sizeof *e);
-        e->key.tag = TAG_INT; e->key.as.i64 = aints[0];
+        e->key = NV_ZERO; e->value = NV_ZERO;
+        if (kind == K_HASHMAP) { e->key.tag = TAG_INT; e->key.as.i64 = aints[0]; }
+        else { m->key_type = TAG_STRING; e->key.tag = TAG_STRING; e->key.as.string = mk_string(tbytes + 2, 2, 0); ref_to(e->key); }
         e->value.tag = TAG_STRING; e->value.as.string = mk_string(tbytes, 2, 0); ref_to(e->value);
         e->next = NULL;
         m->buckets[b & 1] = e;
@@ -223,7 +232,7 @@ static void count_children(void *p, uint8_t tag, int depth) {
     case TAG_UNION: { VmUnion *u = p; for (uint32_t k = 0; k < 3; k++) if (k < u->field_count) count_ref(u->fields[k], depth - 1); break; }
     case TAG_TUPLE: { VmTuple *t = p; for (uint32_t k = 0; k < 3; k++) if (k < t->count) count_ref(t->elements[k], depth - 1); break; }
     case TAG_FUNCTION: { VmClosure *c = p; for (uint32_t k = 0; k < 2; k++) if (k < c->capture_count) count_ref(c->captures[k], depth - 1); break; }
-    case TAG_HASHMAP: { VmHashMap *m = p; for (uint32_t bk = 0; bk < 3; bk++) if (bk < m->bucket_count) {
+    case TAG_HASHMAP: { VmHashMap *m = p; for (uint32_t bk = 0; bk < 9; bk++) if (bk < m->bucket_count) {
             VmHMEntry *e = m->buckets[bk]; for (int n = 0; n < 3 && e; n++) { count_ref(e->key, depth - 1); count_ref(e->value, depth - 1); e = e->next; } } break; }
     default: break;
     }
